@@ -769,6 +769,11 @@ func valueCases(g *core.Graph, at *core.V, e ast.Expr, depth int) []vcase {
 						rhs = s.Rhs[i]
 					}
 				}
+			} else if len(s.Rhs) == 1 && (s.Tok == token.ASSIGN || s.Tok == token.DEFINE) {
+				// one result of a call: the call stands for the value
+				if call, ok := ast.Unparen(s.Rhs[0]).(*ast.CallExpr); ok {
+					rhs = call
+				}
 			}
 		case *ast.ValueSpec:
 			if len(s.Values) == len(s.Names) {
